@@ -84,6 +84,9 @@ def state_digest(d):
     return out
 
 
+IGNORE = set()
+
+
 def run(designer, steps, seed, batch):
     metric = 'm'
     compare_suggestions = True
@@ -135,6 +138,9 @@ def run(designer, steps, seed, batch):
             div.append({'step': step, 'what': 'dump/load raised %s: %s' % (type(e).__name__, str(e)[:200])})
             break
         dA, dB = state_digest(A), state_digest(B)
+        for k in IGNORE:
+            dA.pop(k, None)
+            dB.pop(k, None)
         if dA != dB:
             keys = sorted(k for k in dA if dA[k] != dB.get(k))
             div.append({'step': step, 'what': 'restored state differs from the live one', 'fields': keys,
@@ -189,7 +195,9 @@ def main():
     ap.add_argument('--steps', type=int, default=8)
     ap.add_argument('--seed', type=int, default=1)
     ap.add_argument('--batch', default='1,2,3')
+    ap.add_argument('--ignore', default='', help='digest fields not compared (fields of an open recorded finding)')
     a = ap.parse_args()
+    IGNORE.update(x for x in a.ignore.split(',') if x)
     batch = [int(x) for x in a.batch.split(',')]
     before = env.repo_clean_snapshot()
     err = None
